@@ -89,7 +89,7 @@ def parents(p):
 
 def gen_ops(rng, present, n):
     ops = []
-    present = {p for p in present if not p.startswith("alias/")}
+    present = {p for p in present if not p.startswith("alias/") and p != "alias"}     # (the link may dangle after a rename)
     for _ in range(n):
         kind = rng.choice(["create", "modify", "delete", "rename", "create", "stamp"])
         if kind == "create" or not present:
